@@ -115,6 +115,7 @@ structure GrammarIso (φ ρ : Nat → Nat) (g g' : Grammar) : Prop where
   endQty    : g'.endQty = φ g.endQty
   lexOrder  : g'.lexOrder = g.lexOrder
   ignore    : g'.ignore = g.ignore
+  patterns  : g'.patterns = g.patterns
 
 /-- Decidable certificate for `GrammarIso` with the maps of a candidate bijection. -/
 def checkIso (iso perm : List (Nat × Nat)) (bound : Nat) (g g' : Grammar) : Bool :=
@@ -125,23 +126,26 @@ def checkIso (iso perm : List (Nat × Nat)) (bound : Nat) (g g' : Grammar) : Boo
   rulesAgree perm g.rules g'.rules &&
   g'.startUnit == φ g.startUnit && g'.endUnit == φ g.endUnit &&
   g'.startQty == φ g.startQty && g'.endQty == φ g.endQty &&
-  g'.lexOrder == g.lexOrder && g'.ignore == g.ignore
+  g'.lexOrder == g.lexOrder && g'.ignore == g.ignore && g'.patterns == g.patterns
 
 theorem checkIso_sound {iso perm bound g g'} (h : checkIso iso perm bound g g' = true) :
     GrammarIso (phiOf iso bound) (rhoOf perm g.rules.length) g g' := by
   unfold checkIso at h
   simp only [Bool.and_eq_true, decide_eq_true_eq, beq_iff_eq] at h
-  obtain ⟨⟨⟨⟨⟨⟨⟨⟨h1, h2⟩, h3⟩, h4⟩, h5⟩, h6⟩, h7⟩, h8⟩, h9⟩ := h
-  exact ⟨phiOf_injective h1, h2, rulesAgree_sound h3, h4, h5, h6, h7, h8, h9⟩
+  obtain ⟨⟨⟨⟨⟨⟨⟨⟨⟨h1, h2⟩, h3⟩, h4⟩, h5⟩, h6⟩, h7⟩, h8⟩, h9⟩, h10⟩ := h
+  exact ⟨phiOf_injective h1, h2, rulesAgree_sound h3, h4, h5, h6, h7, h8, h9, h10⟩
 
 variable {φ ρ : Nat → Nat} {g g' : Grammar}
+
+theorem lexConf_iso (h : GrammarIso φ ρ g g') : g'.lexConf = g.lexConf := by
+  unfold Grammar.lexConf; rw [h.lexOrder, h.ignore, h.patterns]
 
 /-- **C16, trees**: for every text, the isomorphic grammar accepts/rejects identically and
     builds the identical parse tree — for both start symbols. -/
 theorem parseTree_iso (h : GrammarIso φ ρ g g') (start stop : Nat) (text : String) :
     parseTree g' (φ start) (φ stop) text = parseTree g start stop text := by
   unfold parseTree
-  rw [← h.table, h.lexOrder, h.ignore]
+  rw [← h.table, lexConf_iso h]
   rw [parseWith_rename h.inj g.table g.rules g'.rules h.rules]
 
 theorem parseTree_unit_iso (h : GrammarIso φ ρ g g') (text : String) :
@@ -159,7 +163,7 @@ set_option linter.unusedSectionVars false
 theorem parseStart_iso (h : GrammarIso φ ρ g g') (start stop : Nat) (text : String) :
     (parseStart g' (φ start) (φ stop) text : CM α (Val α)) = parseStart g start stop text := by
   unfold parseStart
-  rw [← h.table, h.lexOrder, h.ignore]
+  rw [← h.table, lexConf_iso h]
   simp only [parseWith_rename h.inj g.table g.rules g'.rules h.rules]
 
 /-- **C16, values**: `Unit.parse` through the isomorphic grammar is the same computation —
